@@ -13,4 +13,11 @@ ENGINES = [
 ]
 NOTES = "Property-based testing and fuzzing only. See DESIGN.md. Known findings: /verif/known_findings.json."
 NOT_APPLICABLE = {}
-CHECKS = {}
+CHECKS = {
+    "C03": {
+        "text": "Generated-input search for crashes and hangs: ~40k (quick) / ~1M (thorough) mutated, random and adversarial inputs per run through the real pipeline in an isolated worker; every panic, abort or confirmed CPU time-out is a violation. Absence is not established; the claim is 'no crash on everything generated within the stated size bounds'.",
+        "design_ref": "DESIGN.md section 6 C03",
+        "note": "Worker thread stack = 8 MiB (main-thread stack of the product), overflow checks on; inputs bounded to 1 KiB / 200 lines / nesting 40 / 4 files; time bound 120 s thread-CPU.",
+        "technique": "property-based testing: token-level mutation fuzzing + adversarial catalogue against a crash/termination oracle (Hypothesis)",
+    },
+}
